@@ -45,7 +45,7 @@ def families(tier):
         widths, precs, lms = ['', '6', '*'], ['', '.0', '.3'], ['', 'hh', 'l']
         few_flags = ['', '-', '0', '+', '#']
     else:
-        widths, precs, lms = ['', '1', '6', '70', '*'], ['', '.', '.0', '.5', '.70', '.*'], ['', 'hh', 'h', 'l', 'll', 'z', 'j']
+        widths, precs, lms = ['', '6', '70', '*'], ['', '.', '.0', '.5', '.70', '.*'], ['', 'hh', 'h', 'l', 'll', 'z', 'j']
     for conv in 'diuoxX':
         for lm in lms:
             cases = []
@@ -97,6 +97,8 @@ def expected(fmt, args):
     return c_snprintf(fmt, args)
 
 def emit_c(tier, batch_size=12):
+    if tier == 'thorough':
+        batch_size = 24
     """returns (C text with one table per batch under #if C19_BATCH == k, list of (batch index, family, n cases, sample))"""
     out = ['/* generated by units/fmt/gen.py: directive families and the bytes ISO C (host libc snprintf) prescribes for them */',
            'struct c19_arg { int kind; long long i; const char *s; };',
